@@ -94,6 +94,7 @@ CONFIGS = [
     {},  # defaults: 0,1,2 / 0,65,1024
     {"default_array_lengths": "2,0", "default_bytes_lengths": "65,32"},
     {"default_array_lengths": "1", "default_bytes_lengths": "32", "array_lengths": "a0={1,3},a1=2"},
+    {"default_array_lengths": "0", "default_bytes_lengths": "0", "array_lengths": "a0=12,a1={10,3}"},
     {"_names": "unnamed"},  # `function f(uint256, bytes memory)`: solc emits "" for every unnamed parameter / component
     {"_names": "unnamed", "default_array_lengths": "2,0", "default_bytes_lengths": "65,32"},
 ]
@@ -292,6 +293,21 @@ def check_decoded(dec, sig_types):
 # ---------------------------------------------------------------------------
 
 
+def expected_candidates(d, config):
+    """length candidates of one dynamic parameter according to the configuration: --array-lengths name=n | name={a,b,...}, else the
+    default list of its kind (defaults 0,1,2 for arrays and 0,65,1024 for bytes/string)"""
+    import re as _re
+
+    over = {}
+    for nm, braced, single in _re.findall(r"([^=,{}\s]+)=(?:\{([^}]*)\}|(\d+))", config.get("array_lengths", "") or ""):
+        over[nm] = [int(x) for x in braced.split(",")] if braced else [int(single)]
+    if d.name in over:
+        return over[d.name]
+    is_array = type(d.typ).__name__ == "DynamicArrayType"
+    txt = config.get("default_array_lengths", "0,1,2") if is_array else config.get("default_bytes_lengths", "0,65,1024")
+    return [int(x) for x in str(txt).split(",")]
+
+
 def strip_names(items):
     for it in items:
         it["name"] = ""
@@ -417,7 +433,12 @@ def check_signature(acc, types, config, do_reader=True):
     body = atoms[4:]
     tys = [parse_type(t) for t in types]
     size_names = [d.size_symbol.decl().name() for d in dyn]
-    # candidate lists must be what the configuration says
+    # candidate lists must be what the configuration says (read here independently of halmos's option parsers)
+    for d in dyn:
+        want = expected_candidates(d, config)
+        if sorted(set(d.size_choices)) != sorted(set(want)):
+            acc.violation(f"configured:{name}:{cfgs}", f"{name} [{cfgs}]: the length candidates of {d.name} are {list(d.size_choices)}, the configuration says {want}", case)
+            return
     cl, capped = combos(dyn)
     if capped:
         acc.count("capped_signatures")
